@@ -220,7 +220,7 @@ func (m *collection) mergerWaitForWork(pings []ping) (
 
 	m.m.Lock()
 
-	if m.stackDirtyTop == nil || m.stackDirtyTop.isEmpty() {
+	if m.stackDirtyTop == nil || m.stackDirtyTop.numBatches <= 0 {
 		m.waitDirtyIncomingCh = make(chan struct{})
 		waitDirtyIncomingCh = m.waitDirtyIncomingCh
 	}
